@@ -154,6 +154,7 @@ def c14(chk, tier):
     rules_dispatch.r_sibling_outline(P(), chk)
     rules_level.r_level(P(), chk)
     rules_mem.r_stalelen(P(), chk)      # the import path hands back text and length that belong together
+    lalr.r_opml_stack(P(), chk)         # the import parser's stack holds every outline the exporter can nest
 
 
 def c16(chk, tier):
